@@ -7,6 +7,7 @@ import (
 	"fmt"
 	"math"
 	"math/big"
+	"regexp"
 	"strconv"
 	"strings"
 	"testing"
@@ -99,6 +100,21 @@ func Check(c Case) (v vcase.Verdict) {
 	switch c.Where {
 	case "value":
 		want, err := strconv.ParseFloat(txt, 64)
+		// The standard parser itself misplaces the decimal point when more than 800
+		// significant digits precede it (Go 1.23 and 1.26: "1"+800 zeros+"e-800" parses
+		// as 0.1). For long decimal texts the correctly rounded value therefore comes
+		// from exact rational arithmetic; strconv still decides syntactic validity.
+		if bw, bok, brange := bigOracle(txt); bok && (err == nil || errors.Is(err, strconv.ErrRange)) {
+			v.Label("oracle=big.Rat")
+			if brange {
+				err = strconv.ErrRange
+			} else {
+				if err != nil || math.Float64bits(bw) != math.Float64bits(want) {
+					v.Label("strconv_itself_wrong_here")
+				}
+				want, err = bw, nil
+			}
+		}
 		o := read("BenchmarkX 1 " + txt + " u\n")
 		if err == nil {
 			plain := len(txt) <= 15 && strings.Trim(txt, "0123456789") == ""
@@ -160,6 +176,34 @@ func Check(c Case) (v vcase.Verdict) {
 		v.Failf("bad case")
 	}
 	return
+}
+
+var longDecRe = regexp.MustCompile(`^[+-]?([0-9]*)\.?([0-9]*)(?:[eE]([+-]?[0-9]{1,5}))?$`)
+
+// bigOracle returns the correctly rounded value of a plain decimal text with
+// more than 700 digits, computed with big.Rat. rng reports overflow.
+func bigOracle(txt string) (val float64, ok, rng bool) {
+	m := longDecRe.FindStringSubmatch(txt)
+	if m == nil || len(m[1])+len(m[2]) <= 700 || len(m[1])+len(m[2]) == 0 {
+		return 0, false, false
+	}
+	if m[3] != "" {
+		if e, err := strconv.Atoi(m[3]); err != nil || e > 3000 || e < -3000 {
+			return 0, false, false
+		}
+	}
+	r, good := new(big.Rat).SetString(txt)
+	if !good {
+		return 0, false, false
+	}
+	f, _ := r.Float64()
+	if math.IsInf(f, 0) {
+		return f, true, true
+	}
+	if f == 0 && strings.HasPrefix(txt, "-") {
+		f = math.Copysign(0, -1)
+	}
+	return f, true, false
 }
 
 // ---------------------------------------------------------------------------
@@ -354,8 +398,12 @@ func genFloatDerived(t *rapid.T) string {
 	switch rapid.IntRange(0, 4).Draw(t, "midvar") {
 	case 0: // exact halfway
 	case 1: // just above
-		dig, exp10 = dig+strings.Repeat("0", rapid.IntRange(0, 30).Draw(t, "zeros"))+"1", exp10-1
-		exp10 -= len(dig) - 1 - (len(dig) - 1) // no-op, clarity
+		nz := rapid.IntRange(0, 30).Draw(t, "zeros")
+		if vcase.OneIn(t, 4, "longtail") {
+			// push the distinguishing digit beyond the 800 digits the slow path keeps
+			nz = rapid.IntRange(30, 900).Draw(t, "zeroslong")
+		}
+		dig, exp10 = dig+strings.Repeat("0", nz)+"1", exp10-nz-1
 	case 2: // just below: (dig*10 - 1)
 		x, _ := new(big.Int).SetString(dig, 10)
 		x.Mul(x, big.NewInt(10))
@@ -518,6 +566,11 @@ func fixedTexts() []string {
 	}
 	for n := 1; n <= 40; n++ {
 		out = append(out, strings.Repeat("9", n), "1"+strings.Repeat("0", n), strings.Repeat("9", n)+".5", "0."+strings.Repeat("0", n)+"1")
+	}
+	// more than 800 significant digits before the decimal point (the slow path keeps 800)
+	for _, n := range []int{799, 800, 801, 805, 900} {
+		out = append(out, "1"+strings.Repeat("0", n)+"e-"+strconv.Itoa(n), strings.Repeat("9", n)+"e-"+strconv.Itoa(n), "1"+strings.Repeat("0", n)+".5e-"+strconv.Itoa(n),
+			"1"+strings.Repeat("0", 400)+"."+strings.Repeat("0", n-400)+"1e-400", "0."+strings.Repeat("0", 50)+"1"+strings.Repeat("0", n)+"1e51")
 	}
 	for e := -345; e <= 310; e += 1 {
 		out = append(out, "1e"+strconv.Itoa(e), "9.999999999999999999e"+strconv.Itoa(e), "2.2250738585072014e"+strconv.Itoa(e))
